@@ -161,7 +161,7 @@ THEOREMS = ["T_Elevate: Eq 5.36 preserves the Bezier curve (exact at deg+1 dyadi
 
 
 def run(ctx):
-    res = core.run_model(ctx, "MC_C08", 3400, thorough_seeds=(2, 3, 5))
+    res = core.run_model(ctx, "MC_C08", 3400, thorough_seeds=(2, 3, 5, 7))
     core.tlc_must_pass(res, "MC_C08")
     ctx.add_tlc(res, "exhaustive over (degree, dimension, homogeneous or not, count)")
     ctx.theorems = THEOREMS
